@@ -3,6 +3,7 @@
 package main
 
 import (
+	"os"
 	"bytes"
 	"crypto/sha256"
 	"encoding/hex"
@@ -247,10 +248,17 @@ func (bytesComp) Exec(op string) (string, string, string, bool) {
 	n, _ := strconv.Atoi(f[2])
 	part, _ := strconv.Atoi(f[3])
 	seed, _ := strconv.ParseUint(f[4], 10, 64)
-	out, why := runBytes(f[0], f[1], n, part, seed)
+	carrier := f[0]
+	if strings.HasSuffix(carrier, "+dbg") {
+		// the copy loops' debug mode (every block is also handed to a log writer through TeeReader / MultiWriter)
+		carrier = strings.TrimSuffix(carrier, "+dbg")
+		os.Setenv("SOCKETACE_PIPE_DEBUG", "1")
+		defer os.Unsetenv("SOCKETACE_PIPE_DEBUG")
+	}
+	out, why := runBytes(carrier, f[1], n, part, seed)
 	if out != "ok" {
 		// one retry: the smux early-frame race (C02 finding) can stall a fresh session
-		out2, why2 := runBytes(f[0], f[1], n, part, seed)
+		out2, why2 := runBytes(carrier, f[1], n, part, seed)
 		if out2 == "ok" {
 			out, why = out2, ""
 		} else {
@@ -276,6 +284,11 @@ func (bytesComp) Gen(r *Rand, tier string, emit func(string)) {
 			}
 		}
 	}
+	// debug mode of the copy loops (SOCKETACE_PIPE_DEBUG=1)
+	emit(fmt.Sprintf("tcp+dbg echo 204800 0 %d", r.Next()%1000))
+	emit(fmt.Sprintf("tcp+dbg up 65537 1000 %d", r.Next()%1000))
+	emit(fmt.Sprintf("ws+dbg down 65537 0 %d", r.Next()%1000))
+	emit(fmt.Sprintf("tcp+dbg echo 1 0 %d", r.Next()%1000))
 	// unix-domain socket endpoints (plain, TLS, StartTLS)
 	for _, c := range []string{"unix", "unixtls", "unixstarttls"} {
 		emit(fmt.Sprintf("%s echo 65537 1000 %d", c, r.Next()%1000))
